@@ -182,7 +182,7 @@ fn parse_v_text_directive(jsx_attr: &JSXAttr) -> Directive {
                 (**expr).clone()
             }
         }
-        None => {
+        _ => {
             HANDLER.with(|handler| {
                 handler.span_err(
                     jsx_attr.span,
@@ -194,7 +194,6 @@ fn parse_v_text_directive(jsx_attr: &JSXAttr) -> Directive {
                 value: true,
             }))
         }
-        _ => unreachable!(),
     };
 
     Directive::Text(expr)
@@ -215,7 +214,7 @@ fn parse_v_html_directive(jsx_attr: &JSXAttr) -> Directive {
                 (**expr).clone()
             }
         }
-        None => {
+        _ => {
             HANDLER.with(|handler| {
                 handler.span_err(
                     jsx_attr.span,
@@ -227,7 +226,6 @@ fn parse_v_html_directive(jsx_attr: &JSXAttr) -> Directive {
                 value: true,
             }))
         }
-        _ => unreachable!(),
     };
 
     Directive::Html(expr)
